@@ -1,409 +1,18 @@
 import DendroModel.Model.C13
 import DendroModel.Theory.C13Sim
 import DendroModel.Theory.C13Progress
+import DendroModel.Theory.C13Hom
+import DendroModel.Theory.C13Mono
+import DendroModel.Theory.C13Sets
+import DendroModel.Theory.C13Chars
+import DendroModel.Theory.C13NsMono
+import DendroModel.Theory.C13Dead
+import DendroModel.Model.C13Ext
 /-! C13 — property theorems about the reading routes of `Model/C13.lean` (the very definitions `drv_c13` runs).
 
 Only property theorems live in `namespace DendroModel.C13` of this file; helper lemmas are in `DendroModel.C13.Aux`.
 The shared tree-statement parser (`newickStmt`) and the shared NEXUS statement parsers are never unfolded: every
 theorem holds for whatever they compute. -/
-namespace DendroModel.C13.Aux
-open DendroModel.C13
-
-/-- `h` maps what one tree-list factory builds to what another one builds from the same sequence of calls -/
-structure Hom {σ τ} (S : Sink σ) (T : Sink τ) (h : σ → τ) : Prop where
-  newList : ∀ a, h (S.newList a) = T.newList (h a)
-  addTree : ∀ a t, h (S.addTree a t) = T.addTree (h a) t
-
-theorem flatten_hom : Hom freshSink pseudoSink (fun bs : List (List Tree) => bs.flatten) := by
-  constructor
-  · intro a; simp [freshSink, pseudoSink]
-  · intro a t
-    simp only [freshSink, pseudoSink]
-    cases hr : a.reverse with
-    | nil =>
-      have : a = [] := by simpa using hr
-      subst this; simp
-    | cons b r =>
-      have ha : a = r.reverse ++ [b] := by
-        have := congrArg List.reverse hr
-        simpa using this
-      subst ha
-      simp
-
-theorem prefix_hom (l : List Tree) : Hom pseudoSink pseudoSink (fun x => l ++ x) := by
-  constructor
-  · intro a; rfl
-  · intro a t; simp [pseudoSink]
-
-/-! ### NEWICK -/
-
-theorem newickIter_hom {σ τ} (cfg : Cfg) (fl : Flags) (S : Sink σ) (T : Sink τ) (h : σ → τ) (hh : Hom S T h) :
-    ∀ (n : Nat) (ts : TS) (ns : List String) (mp : Mapper) (acc : σ), ts.rest.length = n →
-      newickIter cfg T ts ns mp (h acc) = (newickIter cfg S ts ns mp acc).map (fun r => (h r.1, r.2)) := by
-  intro n
-  induction n using Nat.strongRecOn with
-  | _ n ih =>
-    intro ts ns mp acc hn
-    rw [newickIter.eq_def cfg T, newickIter.eq_def cfg S]
-    cases hst : newickStmt cfg ts ns mp with
-    | error e => simp [Except.map]
-    | ok r =>
-      obtain ⟨ot, ts', ns', mp'⟩ := r
-      cases ot with
-      | none => simp [Except.map]
-      | some t =>
-        simp only []
-        by_cases hp : ts'.rest.length < ts.rest.length
-        · simp only [hp, dite_true]
-          rw [← hh.addTree]
-          exact ih _ (hn ▸ hp) ts' ns' mp' _ rfl
-        · simp [hp, Except.map]
-
-theorem newickRead_hom {σ τ} (cfg : Cfg) (fl : Flags) (S : Sink σ) (T : Sink τ) (h : σ → τ) (hh : Hom S T h)
-    (ts : TS) (ns : List String) (acc : σ) :
-    newickRead cfg T ts ns (h acc) = (newickRead cfg S ts ns acc).map (fun r => (h r.1, r.2)) := by
-  unfold newickRead
-  rw [← hh.newList]
-  exact newickIter_hom cfg fl S T h hh _ ts ns _ _ rfl
-
-theorem newickYieldLoop_eq (cfg : Cfg) (fl : Flags) :
-    ∀ (n : Nat) (ts : TS) (ns : List String) (mp : Mapper) (out : List Tree), ts.rest.length = n →
-      newickYieldLoop cfg ts ns mp out = newickIter cfg pseudoSink ts ns mp out := by
-  intro n
-  induction n using Nat.strongRecOn with
-  | _ n ih =>
-    intro ts ns mp out hn
-    rw [newickYieldLoop.eq_def, newickIter.eq_def]
-    cases hst : newickStmt cfg ts ns mp with
-    | error e => rfl
-    | ok r =>
-      obtain ⟨ot, ts', ns', mp'⟩ := r
-      cases ot with
-      | none => rfl
-      | some t =>
-        simp only []
-        by_cases hp : ts'.rest.length < ts.rest.length
-        · simp only [hp, dite_true]
-          exact ih _ (hn ▸ hp) ts' ns' mp' _ rfl
-        · simp [hp]
-
-/-! ### NEXUS: runs of TREE statements -/
-
-theorem treeRunR_hom {σ τ} (cfg : Cfg) (fl : Flags) (S : Sink σ) (T : Sink τ) (h : σ → τ) (hh : Hom S T h) :
-    ∀ (n : Nat) (c : Doc) (mp : Mapper) (acc : σ), c.ts.rest.length = n →
-      treeRunR cfg T c mp (h acc) = (treeRunR cfg S c mp acc).map (fun r => (r.1, r.2.1, h r.2.2.1, r.2.2.2)) := by
-  intro n
-  induction n using Nat.strongRecOn with
-  | _ n ih =>
-    intro c mp acc hn
-    rw [treeRunR.eq_def cfg T, treeRunR.eq_def cfg S]
-    cases hst : nexusTreeStmt cfg c mp with
-    | error e => simp [Except.map]
-    | ok r =>
-      obtain ⟨t, c1, mp1⟩ := r
-      simp only []
-      rw [← hh.addTree]
-      split
-      · simp [Except.map]
-      · split
-        · simp [Except.map]
-        · split
-          · rename_i hp
-            exact ih _ (hn ▸ hp) _ _ _ rfl
-          · simp [Except.map]
-
-theorem treeRunY_eq (cfg : Cfg) (fl : Flags) :
-    ∀ (n : Nat) (c : Doc) (mp : Mapper) (out : List Tree), c.ts.rest.length = n →
-      treeRunY cfg c mp out = treeRunR cfg pseudoSink c mp out := by
-  intro n
-  induction n using Nat.strongRecOn with
-  | _ n ih =>
-    intro c mp out hn
-    rw [treeRunY.eq_def, treeRunR.eq_def]
-    cases hst : nexusTreeStmt cfg c mp with
-    | error e => rfl
-    | ok r =>
-      obtain ⟨t, c1, mp1⟩ := r
-      simp only [pseudoSink]
-      split
-      · rfl
-      · split
-        · rfl
-        · split
-          · rename_i hp
-            exact ih _ (hn ▸ hp) _ _ _ rfl
-          · rfl
-
-/-! ### NEXUS: TREES block -/
-
-theorem treesStepR_hom {σ τ} (cfg : Cfg) (fl : Flags) (S : Sink σ) (T : Sink τ) (h : σ → τ) (hh : Hom S T h)
-    (c : Core) (v : BlockVars) (acc : σ) :
-    treesStepR cfg fl T c v (h acc) = (treesStepR cfg fl S c v acc).map (fun r => (r.1, r.2.1, h r.2.2)) := by
-  unfold treesStepR
-  simp only []
-  split
-  · cases parseLink c.ts.nextU with
-    | error e => simp [Except.map]
-    | ok r => simp [Except.map]
-  · split
-    · cases parseTitle c.ts.nextU with
-      | error e => simp [Except.map]
-      | ok r => simp [Except.map]
-    · split
-      · cases (if v.haveNs = true then Except.ok { c with ts := c.ts.nextU } else getNamespace fl { c with ts := c.ts.nextU } v.link) with
-        | error e => simp [Except.map]
-        | ok c2 =>
-          simp only []
-          cases parseTranslate c2 v.mapper with
-          | error e => simp [Except.map]
-          | ok r => simp [Except.map]
-      · split
-        · cases (if v.haveNs = true then Except.ok { c with ts := c.ts.nextU } else getNamespace fl { c with ts := c.ts.nextU } v.link) with
-          | error e => simp [Except.map]
-          | ok c2 =>
-            simp only []
-            have key : (if v.haveList = true then h acc else T.newList (h acc)) = h (if v.haveList = true then acc else S.newList acc) := by
-              split
-              · rfl
-              · exact (hh.newList acc).symm
-            rw [key, treeRunR_hom cfg fl S T h hh _ _ _ _ rfl]
-            cases treeRunR cfg S { ts := c2.ts.clear, ns := c2.ns } (mapperOr v.mapper c2.ns)
-                (if v.haveList = true then acc else S.newList acc) with
-            | error e => simp [Except.map]
-            | ok r => simp [Except.map]
-        · split
-          · simp [Except.map]
-          · simp [Except.map]
-
-theorem treesStepY_eq (cfg : Cfg) (fl : Flags) (c : Core) (v : BlockVars) (out : List Tree) :
-    treesStepY cfg fl c v out = treesStepR cfg fl pseudoSink c v out := by
-  unfold treesStepY treesStepR
-  simp only []
-  split
-  · rfl
-  · split
-    · rfl
-    · split
-      · rfl
-      · split
-        · cases (if v.haveNs = true then Except.ok { c with ts := c.ts.nextU } else getNamespace fl { c with ts := c.ts.nextU } v.link) with
-          | error e => rfl
-          | ok c2 =>
-            simp only []
-            have key : (if v.haveList = true then out else pseudoSink.newList out) = out := by
-              split <;> rfl
-            rw [key, treeRunY_eq cfg fl _ _ _ _ rfl]
-            generalize treeRunR cfg pseudoSink _ _ out = x
-            cases x <;> rfl
-        · rfl
-
-theorem treesLoopR_hom {σ τ} (cfg : Cfg) (fl : Flags) (S : Sink σ) (T : Sink τ) (h : σ → τ) (hh : Hom S T h) :
-    ∀ (n : Nat) (c : Core) (v : BlockVars) (acc : σ), c.ts.rest.length = n →
-      treesLoopR cfg fl T c v (h acc) = (treesLoopR cfg fl S c v acc).map (fun r => (r.1, h r.2)) := by
-  intro n
-  induction n using Nat.strongRecOn with
-  | _ n ih =>
-    intro c v acc hn
-    rw [treesLoopR.eq_def cfg fl T, treesLoopR.eq_def cfg fl S]
-    split
-    · simp [Except.map]
-    · rw [treesStepR_hom cfg fl S T h hh]
-      cases treesStepR cfg fl S c v acc with
-      | error e => simp [Except.map]
-      | ok r =>
-        obtain ⟨c5, v5, acc5⟩ := r
-        simp only [Except.map]
-        split
-        · rename_i hp
-          exact ih _ (hn ▸ hp) _ _ _ rfl
-        · split <;> simp [Except.map]
-
-theorem treesLoopY_eq (cfg : Cfg) (fl : Flags) :
-    ∀ (n : Nat) (c : Core) (v : BlockVars) (out : List Tree), c.ts.rest.length = n →
-      treesLoopY cfg fl c v out = treesLoopR cfg fl pseudoSink c v out := by
-  intro n
-  induction n using Nat.strongRecOn with
-  | _ n ih =>
-    intro c v out hn
-    rw [treesLoopY.eq_def, treesLoopR.eq_def]
-    split
-    · rfl
-    · rw [treesStepY_eq]
-      cases treesStepR cfg fl pseudoSink c v out with
-      | error e => rfl
-      | ok r =>
-        obtain ⟨c5, v5, out5⟩ := r
-        simp only []
-        split
-        · rename_i hp
-          exact ih _ (hn ▸ hp) _ _ _ rfl
-        · rfl
-
-theorem treesBlockR_hom {σ τ} (cfg : Cfg) (fl : Flags) (S : Sink σ) (T : Sink τ) (h : σ → τ) (hh : Hom S T h)
-    (c : Core) (acc : σ) :
-    treesBlockR cfg fl T c (h acc) = (treesBlockR cfg fl S c acc).map (fun r => (r.1, h r.2)) := by
-  unfold treesBlockR
-  simp only []
-  split
-  · simp [Except.map]
-  · exact treesLoopR_hom cfg fl S T h hh _ _ _ _ rfl
-
-theorem treesBlockY_eq (cfg : Cfg) (fl : Flags) (c : Core) (out : List Tree) :
-    treesBlockY cfg fl c out = treesBlockR cfg fl pseudoSink c out := by
-  unfold treesBlockY treesBlockR
-  simp only []
-  split
-  · rfl
-  · exact treesLoopY_eq cfg fl _ _ _ _ rfl
-
-/-! ### NEXUS: the block loop of the stream -/
-
-theorem streamStepR_hom {σ τ} (cfg : Cfg) (fl : Flags) (S : Sink σ) (T : Sink τ) (h : σ → τ) (hh : Hom S T h)
-    (c : Core) (acc : σ) :
-    streamStepR cfg fl T c (h acc) = (streamStepR cfg fl S c acc).map (fun r => (r.1, h r.2)) := by
-  unfold streamStepR
-  simp only []
-  split
-  · cases parseTaxaBlock fl { c with ts := (seekBegin c.ts.nextU).clear.nextU } with
-    | error e => simp [Except.map]
-    | ok r => simp [Except.map]
-  · split
-    · split <;> simp [Except.map]
-    · split
-      · exact treesBlockR_hom cfg fl S T h hh _ _
-      · split
-        · split <;> simp [Except.map]
-        · split <;> simp [Except.map]
-
-theorem streamStepY_eq (cfg : Cfg) (fl : Flags) (hx : fl.excludeChars = true) (c : Core) (out : List Tree)
-    (hs : isSetsKw (dispatchTok c) = false) :
-    streamStepY cfg fl c out = streamStepR cfg fl pseudoSink c out := by
-  unfold streamStepY streamStepR
-  unfold dispatchTok at hs
-  simp only [hx]
-  generalize hcur : ((seekBegin c.ts.nextU).clear.nextU).cur = cur at *
-  by_cases hT : cur = some "TAXA"
-  · subst hT; simp
-  by_cases hR : cur = some "TREES"
-  · subst hR; simp; exact treesBlockY_eq cfg fl _ _
-  by_cases hB : cur = some "BEGIN"
-  · subst hB; simp [isSetsKw]
-  · simp only [beq_iff_eq, hT, hR, hB, hs, if_false, Bool.false_eq_true]
-    split <;> rfl
-
-theorem streamLoopR_hom {σ τ} (cfg : Cfg) (fl : Flags) (S : Sink σ) (T : Sink τ) (h : σ → τ) (hh : Hom S T h) :
-    ∀ (n : Nat) (c : Core) (acc : σ), c.ts.rest.length = n →
-      streamLoopR cfg fl T c (h acc) = (streamLoopR cfg fl S c acc).map (fun r => (r.1, h r.2)) := by
-  intro n
-  induction n using Nat.strongRecOn with
-  | _ n ih =>
-    intro c acc hn
-    rw [streamLoopR.eq_def cfg fl T, streamLoopR.eq_def cfg fl S]
-    split
-    · simp [Except.map]
-    · rw [streamStepR_hom cfg fl S T h hh]
-      cases streamStepR cfg fl S c acc with
-      | error e => simp [Except.map]
-      | ok r =>
-        obtain ⟨c3, acc3⟩ := r
-        simp only [Except.map]
-        split
-        · rename_i hp
-          exact ih _ (hn ▸ hp) _ _ rfl
-        · split <;> simp [Except.map]
-
-theorem streamLoopY_eq (cfg : Cfg) (fl : Flags) (hx : fl.excludeChars = true) :
-    ∀ (n : Nat) (c : Core) (out : List Tree), c.ts.rest.length = n → noSetsBlocks cfg fl pseudoSink c out = true →
-      streamLoopY cfg fl c out = streamLoopR cfg fl pseudoSink c out := by
-  intro n
-  induction n using Nat.strongRecOn with
-  | _ n ih =>
-    intro c out hn hs
-    rw [streamLoopY.eq_def, streamLoopR.eq_def]
-    rw [noSetsBlocks.eq_def] at hs
-    split
-    · rfl
-    · rename_i heof
-      simp only [heof, Bool.false_eq_true, if_false] at hs
-      by_cases hk : isSetsKw (dispatchTok c) = true
-      · simp [hk] at hs
-      · have hk' : isSetsKw (dispatchTok c) = false := by simpa using hk
-        simp only [hk', Bool.false_eq_true, if_false] at hs
-        rw [streamStepY_eq cfg fl hx c out hk']
-        cases hst : streamStepR cfg fl pseudoSink c out with
-        | error e => rfl
-        | ok r =>
-          obtain ⟨c3, out3⟩ := r
-          simp only [hst] at hs
-          simp only []
-          split
-          · rename_i hp
-            simp only [hp, dite_true] at hs
-            exact ih _ (hn ▸ hp) _ _ rfl hs
-          · rfl
-
-theorem nexusRead_hom {σ τ} (cfg : Cfg) (fl : Flags) (S : Sink σ) (T : Sink τ) (h : σ → τ) (hh : Hom S T h) (c : Core) (acc : σ) :
-    nexusRead cfg fl T c (h acc) = (nexusRead cfg fl S c acc).map (fun r => (r.1, h r.2)) := by
-  unfold nexusRead
-  simp only []
-  split
-  · simp [Except.map]
-  · exact streamLoopR_hom cfg fl S T h hh _ _ _ rfl
-
-theorem readWith_hom {σ τ} (sch : Schema) (cfg : Cfg) (fl : Flags) (S : Sink σ) (T : Sink τ) (h : σ → τ) (hh : Hom S T h)
-    (toks : List Tok) (tail : List String) (ns : NSObj) (acc : σ) :
-    readWith sch cfg fl T toks tail ns (h acc) = (readWith sch cfg fl S toks tail ns acc).map (fun r => (h r.1, r.2)) := by
-  cases sch with
-  | newick =>
-    simp only [readWith]
-    rw [newickRead_hom cfg fl S T h hh]
-    cases newickRead cfg S { rest := toks, tail := tail } ns.labels acc <;> simp [Except.map]
-  | nexus =>
-    simp only [readWith]
-    rw [nexusRead_hom cfg fl S T h hh]
-    cases nexusRead cfg fl S (coreOf toks tail ns) acc <;> simp [Except.map]
-
-theorem dispatchTok_setReg (c : Core) (k l) : dispatchTok (setReg c k l) = dispatchTok c := rfl
-
-/-- on a run that the non-attached reader completes, "no SETS-class block is dispatched" carries over to the attached run -/
-theorem noSets_att {σ} (cfg : Cfg) (fl : Flags) (S : Sink σ) : ∀ (n : Nat) (c : Core) (acc : σ) (r),
-    c.ts.rest.length = n → streamLoopR cfg fl S c acc = .ok r → noSetsBlocks cfg fl S c acc = true →
-    ∀ k l, noSetsBlocks cfg (att fl) S (setReg c k l) acc = true := by
-  intro n
-  induction n using Nat.strongRecOn with
-  | _ n ih =>
-    intro c acc r hn h hs k l
-    rw [streamLoopR.eq_def] at h
-    rw [noSetsBlocks.eq_def] at hs ⊢
-    by_cases hc : c.ts.eof = true
-    · rw [if_pos (show (setReg c k l).ts.eof = true from hc)]
-    · rw [if_neg hc] at h hs
-      rw [if_neg (show ¬ (setReg c k l).ts.eof = true from hc), dispatchTok_setReg]
-      by_cases hk : isSetsKw (dispatchTok c) = true
-      · simp [hk] at hs
-      · rw [if_neg hk] at hs ⊢
-        cases hst : streamStepR cfg fl S c acc with
-        | error e => simp [hst] at h
-        | ok x =>
-          obtain ⟨c3, acc3⟩ := x
-          rw [streamStepR_att cfg fl S c acc _ hst k l]
-          simp only [hst] at h hs
-          simp only []
-          by_cases hp : c3.ts.rest.length < c.ts.rest.length
-          · rw [dif_pos hp] at h hs
-            rw [dif_pos (show (setReg c3 k l).ts.rest.length < (setReg c k l).ts.rest.length from hp)]
-            exact ih _ (hn ▸ hp) c3 acc3 r rfl h hs k l
-          · rw [dif_neg (show ¬ (setReg c3 k l).ts.rest.length < (setReg c k l).ts.rest.length from hp)]
-
-theorem pyIdx_neg {α} (l : List α) (c : Nat) (hc : c < l.length) :
-    pyIdx l (-(c : Int) - 1) = l[l.length - 1 - c]? := by
-  unfold pyIdx
-  have n1 : ¬ (0 ≤ -(c : Int) - 1) := by omega
-  have p1 : 0 ≤ (l.length : Int) + (-(c : Int) - 1) := by omega
-  have e1 : ((l.length : Int) + (-(c : Int) - 1)).toNat = l.length - 1 - c := by omega
-  rw [if_neg n1, if_pos p1, e1]
-
-end DendroModel.C13.Aux
 
 namespace DendroModel.C13
 open Aux
@@ -425,21 +34,51 @@ theorem trees_block_reader_eq_yielder (cfg : Cfg) (fl : Flags) (c : Core) (out :
     treesBlockY cfg fl c out = treesBlockR cfg fl pseudoSink c out :=
   treesBlockY_eq cfg fl c out
 
+/-- every turn of the reader's block loop consumes at least one token when there is one, and never gives tokens back — for
+    every token stream, block layout and option set (through the TAXA-, TREES-, character- and unknown-block parsers,
+    `Theory/C13Mono.lean`); on a dry stream the turn ends at end of input (`streamStepR_dry`). -/
+theorem stream_step_consumes {σ} (cfg : Cfg) (fl : Flags) (S : Sink σ) (c : Core) (acc : σ) (r : Core × σ)
+    (h : streamStepR cfg fl S c acc = .ok r) :
+    r.1.ts.rest.length ≤ c.ts.rest.length ∧ (c.ts.rest ≠ [] → r.1.ts.rest.length < c.ts.rest.length) ∧
+    (c.ts.rest = [] → r.1.ts.eof = true) :=
+  ⟨(streamStepR_le cfg fl S c acc r h).1, (streamStepR_le cfg fl S c acc r h).2, fun hd => streamStepR_dry cfg fl S c acc r hd h⟩
+
+/-- hence the run-time progress check of `NexusReader._parse_nexus_stream`'s `while not eof` loop is dead code: the model's
+    loop satisfies the plain unfolding of the Python loop and never answers `stuck` itself -/
+theorem streamLoopR_check_dead {σ} (cfg : Cfg) (fl : Flags) (S : Sink σ) (c : Core) (acc : σ) :
+    streamLoopR cfg fl S c acc =
+      if c.ts.eof then .ok (c, acc)
+      else match streamStepR cfg fl S c acc with
+        | .error e => .error e
+        | .ok (c3, acc3) => streamLoopR cfg fl S c3 acc3 :=
+  streamLoopR_dead cfg fl S c acc
+
+/-- the same for the iterator's copy of the loop -/
+theorem streamLoopY_check_dead (cfg : Cfg) (fl : Flags) (c : Core) (out : List Tree) :
+    streamLoopY cfg fl c out =
+      if c.ts.eof then .ok (c, out)
+      else match streamStepY cfg fl c out with
+        | .error e => .error e
+        | .ok (c3, out3) => streamLoopY cfg fl c3 out3 :=
+  streamLoopY_dead cfg fl c out
+
 /-- NEXUS stream: `NexusTreeDataYielder._yield_items_from_stream` delivers exactly what `NexusReader._parse_nexus_stream`
-    delivers into one list under the same settings (`exclude_chars`, as on every tree route).
-    PARTIAL: (1) stated for documents on which the reader's block loop never dispatches on a SETS / ASSUMPTIONS / CODONS
-    block (`noSetsBlocks`): the reader leaves such a block to be scanned for the next BEGIN, the yielder skips it
-    statement by statement, and they agree only when the block is well formed; (2) both front ends run with the same
-    `attached` flag, whereas `Tree.yield_from_files` attaches its namespace and `TreeList.get` does not (they differ on
-    documents with several TAXA blocks).  Both residues are covered by the correspondence run on generated documents. -/
-theorem reader_eq_yielder_partial (cfg : Cfg) (fl : Flags) (hx : fl.excludeChars = true) (c : Core) (out : List Tree)
-    (hs : noSetsBlocks cfg fl pseudoSink { c with ts := c.ts.next } out = true) :
+    delivers into one list under the same settings (`exclude_chars`, as on every tree route): same trees, same order, same
+    final state, same errors — SETS / ASSUMPTIONS / CODONS blocks INCLUDED, although the two front ends treat them differently
+    (the reader does nothing on `BEGIN SETS` and lets its scan for the next `BEGIN` run over the block; the iterator skips the
+    block statement by statement up to `END`): a stuttering simulation, `Theory/C13Sets.lean`.
+    Hypothesis `hs : setsClean …` (executable, driver op `setsclean`, evaluated by the harness on every generated NEXUS
+    document; the share is in the evidence): in every SETS-class block the iterator meets, the statements it skips hold no
+    token `BEGIN` and do not run into the end of input.  It is needed: on `BEGIN SETS; BEGIN TREES; …` the reader stops at
+    the inner `BEGIN`, the iterator skips it. -/
+theorem reader_eq_yielder (cfg : Cfg) (fl : Flags) (hx : fl.excludeChars = true) (c : Core) (out : List Tree)
+    (hs : setsClean cfg fl { c with ts := c.ts.next } out = true) :
     nexusYield cfg fl c out = nexusRead cfg fl pseudoSink c out := by
   unfold nexusYield nexusRead
   simp only []
   split
   · rfl
-  · exact streamLoopY_eq cfg fl hx _ _ _ rfl hs
+  · exact streamLoopY_eq_clean cfg fl hx _ _ _ rfl hs
 
 /-- route level, NEWICK: what the driver's `yield` op computes (`Tree.yield_from_files`) is what its `list` op computes
     (`TreeList.get` of the whole source), for every token stream, option set and starting namespace. -/
@@ -447,22 +86,6 @@ theorem yield_eq_list_newick (cfg : Cfg) (fl : Flags) (toks : List Tok) (tail : 
     yieldFrom .newick cfg fl toks tail ns = listGet .newick cfg fl toks tail ns [] none none := by
   simp only [yieldFrom, listGet, readWith]
   rw [newick_reader_eq_yielder cfg fl]
-
-/-- route level, NEXUS: `Tree.yield_from_files` (the driver's `yield` op) = `TreeList.get` of the whole source computed
-    by the READER front end under the yielder's own settings.
-    PARTIAL: the right-hand side runs with `attached := true`, whereas the driver's `list` op (the real `TreeList.get`)
-    runs the reader with `attached := false`; the two differ exactly where the reader consults `nsCount`/`nsLabel`
-    (several TAXA blocks, LINK to a title, the NTAX refusal of TAXLABELS) — a simulation over `Core` states that differ
-    in those two fields is not proved.  Also restricted by `noSetsBlocks` as `reader_eq_yielder_partial`.
-    SUPERSEDED for the driver-run statement by `yield_eq_list_nexus` below.  The right-hand side configuration is
-    executed by the driver as op `list` with flags `11` and compared by the harness with the real attached route
-    (`DataSet.get(taxon_namespace=, exclude_chars=True)`, flattened) on every generated NEXUS document. -/
-theorem yield_eq_list_nexus_partial (cfg : Cfg) (fl : Flags) (hx : fl.excludeChars = true) (toks : List Tok) (tail : List String) (ns : NSObj)
-    (hs : noSetsBlocks cfg { fl with attached := true } pseudoSink
-            { (coreOf toks tail ns) with ts := (coreOf toks tail ns).ts.next } [] = true) :
-    yieldFrom .nexus cfg fl toks tail ns = listGet .nexus cfg { fl with attached := true } toks tail ns [] none none := by
-  simp only [yieldFrom, listGet, readWith]
-  rw [reader_eq_yielder_partial cfg { fl with attached := true } hx (coreOf toks tail ns) [] hs]
 
 /-- the reader front end with an ATTACHED namespace (`DataSet.get(taxon_namespace=…)`, the settings of the iterator) reproduces
     every successful run of the reader without one (`TreeList.get`, `Tree.get`, plain `DataSet.get`): same product of the
@@ -488,51 +111,36 @@ theorem attached_reader_simulates {σ} (cfg : Cfg) (fl : Flags) (S : Sink σ) (t
     rw [hA]
     exact ⟨_, rfl, rfl⟩
 
+/-- route level, NEXUS: `Tree.yield_from_files` (the driver's `yield` op: the separately written iterator front end, which
+    attaches its namespace) = `TreeList.get` of the whole source computed by the READER front end with an attached namespace
+    (driver op `list` with flags `11`, compared by the harness with the real attached route
+    `DataSet.get(taxon_namespace=, exclude_chars=True)`, flattened) — full equality: trees, order, namespace, errors.
+    Hypothesis `hs` as in `reader_eq_yielder`, on the iterator's own run (what driver op `setsclean` evaluates). -/
+theorem yield_eq_attached_list_nexus (cfg : Cfg) (fl : Flags) (hx : fl.excludeChars = true) (toks : List Tok) (tail : List String) (ns : NSObj)
+    (hs : setsClean cfg (att fl) { (coreOf toks tail ns) with ts := (coreOf toks tail ns).ts.next } [] = true) :
+    yieldFrom .nexus cfg fl toks tail ns = listGet .nexus cfg (att fl) toks tail ns [] none none := by
+  simp only [yieldFrom, listGet, readWith]
+  show (nexusYield cfg (att fl) (coreOf toks tail ns) []).map _ = _
+  rw [reader_eq_yielder cfg (att fl) hx (coreOf toks tail ns) [] hs]
+
 /-- route level, NEXUS, both sides as the driver runs them: whenever `TreeList.get` (the `list` op: reader front end,
     namespace NOT attached) reads the whole source, `Tree.yield_from_files` (the `yield` op: the separately written
     iterator front end, namespace attached) delivers exactly the same trees in the same order, attached to the same
     taxa of a namespace with the same labels.  For every option set and starting namespace, and every token stream
-    satisfying `hs` below.  One direction and success only: nothing is claimed when the list route fails.
-    (The converse fails by design and is a listed known finding: a file with several TAXA blocks is refused by the
-    list route and read by the iterator.  The namespace *title* may differ: only the list route records it.)
-    Hypothesis `hs : noSetsBlocks …` (an executable predicate of the model, driver op `nosets`; the harness evaluates it
-    on every generated NEXUS document and reports the share in the evidence, about 80 %): the block loop of the `list`
-    run meets no SETS / ASSUMPTIONS / CODONS block.  It EXCLUDES well-formed documents with such a block on which both
-    routes do agree (e.g. `… BEGIN SETS; taxset x = 1; END; BEGIN TREES; …`): there the reader scans the block for the
-    next BEGIN while the iterator skips it statement by statement, the intermediate tokenizer states differ (captured
-    comments, end-of-input flag) and only a result-level stuttering simulation would relate them — not proved; those
-    documents are covered by the correspondence only. -/
+    satisfying `hs` (see `reader_eq_yielder`; SETS-class blocks are covered).  One direction and success only: the converse
+    fails by design and is a listed known finding (a file with several TAXA blocks is refused by the list route and read by
+    the iterator; see `taxlabels_limit_refuses`, `link_unknown_refused`).  The namespace *title* may differ: only the list
+    route records it.  Proof: the attached reader simulates every successful non-attached run (`Theory/C13Sim.lean`), and
+    the iterator equals the attached reader (`reader_eq_yielder`). -/
 theorem yield_eq_list_nexus (cfg : Cfg) (fl : Flags) (hx : fl.excludeChars = true)
     (toks : List Tok) (tail : List String) (ns ns' : NSObj) (trees : List Tree)
     (hlist : listGet .nexus cfg fl toks tail ns [] none none = .ok (trees, ns'))
-    (hs : noSetsBlocks cfg fl pseudoSink { (coreOf toks tail ns) with ts := (coreOf toks tail ns).ts.next } [] = true) :
+    (hs : setsClean cfg (att fl) { (coreOf toks tail ns) with ts := (coreOf toks tail ns).ts.next } [] = true) :
     ∃ ns'', yieldFrom .nexus cfg fl toks tail ns = .ok (trees, ns'') ∧ ns''.labels = ns'.labels := by
-  simp only [listGet, readWith] at hlist
-  cases hr : nexusRead cfg fl pseudoSink (coreOf toks tail ns) [] with
-  | error e => simp [hr, Except.map] at hlist
-  | ok r =>
-    simp only [hr, Except.map] at hlist
-    cases hlist
-    -- the attached run from the same state (registry unchanged)
-    have hA := nexusRead_att cfg fl pseudoSink (coreOf toks tail ns) [] r hr
-      (coreOf toks tail ns).nsCount (coreOf toks tail ns).nsLabel
-    have e0 : setReg (coreOf toks tail ns) (coreOf toks tail ns).nsCount (coreOf toks tail ns).nsLabel = coreOf toks tail ns := rfl
-    rw [e0] at hA
-    -- the stream loop of the non-attached run succeeded: transfer `noSetsBlocks`
-    have hloop : streamLoopR cfg fl pseudoSink { (coreOf toks tail ns) with ts := (coreOf toks tail ns).ts.next } [] = .ok r := by
-      unfold nexusRead at hr
-      by_cases hc : ((coreOf toks tail ns).ts.next.cur.map String.toUpper != some "#NEXUS") = true
-      · simp only [hc, if_true] at hr; cases hr
-      · have hc' := eq_false_of_ne_true hc
-        simp only [hc', Bool.false_eq_true, ↓reduceIte] at hr
-        exact hr
-    have hsA := noSets_att cfg fl pseudoSink _ _ _ r rfl hloop hs
-      (coreOf toks tail ns).nsCount (coreOf toks tail ns).nsLabel
-    have hY := reader_eq_yielder_partial cfg (att fl) hx (coreOf toks tail ns) [] hsA
-    refine ⟨{ labels := r.1.ns, title := (coreOf toks tail ns).nsLabel }, ?_, rfl⟩
-    show (nexusYield cfg (att fl) (coreOf toks tail ns) []).map _ = _
-    rw [hY, hA]
-    rfl
+  obtain ⟨ns'', h, hl⟩ := attached_reader_simulates cfg fl pseudoSink toks tail ns ns' [] trees (by simpa [listGet] using hlist)
+  refine ⟨ns'', ?_, hl⟩
+  rw [yield_eq_attached_list_nexus cfg fl hx toks tail ns hs]
+  simpa [listGet] using h
 
 /-! ### one list, the collections, a data set -/
 
@@ -570,17 +178,43 @@ theorem incremental_collection (sch : Schema) (cfg : Cfg) (fl : Flags) (toks : L
   have h1 : ¬ ((c : Int) ≥ (bs.length : Int)) := by omega
   simp [listGet, hread, h1, pyIdx, hb]
 
-/-- `DataSet.get`: the tree lists of the data set, concatenated, are the trees of `TreeList.get`.
-    PARTIAL: stated with the same `exclude_chars` on both sides (an instance of `whole_eq_flatten`); the real data-set
-    route parses CHARACTERS/DATA/SETS blocks (here a statement skeleton, not the C09 matrix parser) where the tree-list
-    route skips them, and NO theorem relates the two settings.  The right-hand side is executed by the driver as op
-    `list` with flags `00` and compared with `DataSet.get(...)` flattened; the clause "data set = tree list" at the real,
-    differing settings is checked by oracle and correspondence only. -/
-theorem dataset_eq_lists_partial (sch : Schema) (cfg : Cfg) (fl : Flags) (toks : List Tok) (tail : List String) (ns : NSObj) :
+/-- `DataSet.get` / `DataSet.read` at the REAL, differing settings: the data set route parses CHARACTERS / DATA / SETS-class
+    blocks (`exclude_chars = False`) where every tree route skips them (`exclude_chars = True`), and still the collections it
+    delivers are exactly the collections of the tree routes (`Tree.get` / `TreeList.get(collection_offset=…)`): same trees,
+    same grouping, same namespace, same errors.  A second stuttering simulation (`Theory/C13Chars.lean`): the parsing reader
+    leaves a block past `END;`, the skipping reader at `END` (a character block) or at `BEGIN SETS` (a SETS-class block), and
+    the scan for the next `BEGIN` absorbs the difference.
+    Hypothesis `hc : charsClean …` (executable, driver op `charsclean`, evaluated on every generated NEXUS document): between
+    those two places there is no token `BEGIN` and neither is the end of input (a document that ends with the `;` of a
+    character block's `END;` and nothing after it, not even a line break, is outside; so is a block without `END`).
+    In this model a parsed block is its statement skeleton: the matrix parser itself is C09's. -/
+theorem dataset_blocks_eq (sch : Schema) (cfg : Cfg) (fl : Flags) (hx : fl.excludeChars = true)
+    (toks : List Tok) (tail : List String) (ns : NSObj)
+    (hc : charsClean cfg fl freshSink { (coreOf toks tail ns) with ts := (coreOf toks tail ns).ts.next } [] = true) :
+    datasetRead sch cfg fl toks tail ns [] = readBlocks sch cfg fl toks tail ns := by
+  have hfl : fl = withExclude fl true := by
+    cases fl; simp only [withExclude] at *; subst hx; rfl
+  cases sch with
+  | newick => rfl
+  | nexus =>
+    simp only [datasetRead, readBlocks, readWith]
+    congr 1
+    show nexusRead cfg (withExclude fl false) freshSink (coreOf toks tail ns) [] = nexusRead cfg fl freshSink (coreOf toks tail ns) []
+    conv => rhs; rw [hfl]
+    unfold nexusRead
+    simp only []
+    split
+    · rfl
+    · exact streamLoopR_exclude_irrelevant cfg fl freshSink _ _ _ rfl hc
+
+/-- hence: the tree lists of the data set, concatenated, are the trees of `TreeList.get` — both sides as the driver runs them
+    (ops `dataset` and `list`) -/
+theorem dataset_eq_lists (sch : Schema) (cfg : Cfg) (fl : Flags) (hx : fl.excludeChars = true)
+    (toks : List Tok) (tail : List String) (ns : NSObj)
+    (hc : charsClean cfg fl freshSink { (coreOf toks tail ns) with ts := (coreOf toks tail ns).ts.next } [] = true) :
     (datasetRead sch cfg fl toks tail ns []).map (fun r => (r.1.flatten, r.2))
-      = listGet sch cfg { fl with excludeChars := false } toks tail ns [] none none := by
-  rw [whole_eq_flatten]
-  rfl
+      = listGet sch cfg fl toks tail ns [] none none := by
+  rw [whole_eq_flatten, dataset_blocks_eq sch cfg fl hx toks tail ns hc]
 
 /-! ### progress of the shared tree-statement parser: the loops over it need no run-time progress check -/
 
@@ -664,6 +298,44 @@ theorem treeRunY_check_dead (cfg : Cfg) (d : Doc) (mp : Mapper) (out : List Tree
     obtain ⟨t, d1, mp1⟩ := r
     have hp : ({ d1 with ts := d1.ts.castU } : Doc).ts.rest.length < d.ts.rest.length := nexusTreeStmt_lt cfg d mp t d1 mp1 hst
     simp only [dif_pos hp]
+
+/-- the run-time progress check of the loop of `NexusReader._parse_trees_block` is dead code as well: every turn reads a
+    token (`next_token_ucase` first thing) or the stream is dry and the turn ends at end of input, where the Python loop
+    stops too (`Theory/C13Dead.lean`) -/
+theorem treesLoopR_check_dead {σ} (cfg : Cfg) (fl : Flags) (S : Sink σ) (c : Core) (v : BlockVars) (acc : σ) :
+    treesLoopR cfg fl S c v acc =
+      if c.ts.eof || v.tok == none || v.tok == some "END" || v.tok == some "ENDBLOCK" then
+        .ok ({ c with ts := skipSemi c.ts }, acc)
+      else match treesStepR cfg fl S c v acc with
+        | .error e => .error e
+        | .ok (c5, v5, acc5) => treesLoopR cfg fl S c5 v5 acc5 :=
+  treesLoopR_dead cfg fl S c v acc
+
+/-- … of the iterator's copy of that loop … -/
+theorem treesLoopY_check_dead (cfg : Cfg) (fl : Flags) (c : Core) (v : BlockVars) (out : List Tree) :
+    treesLoopY cfg fl c v out =
+      if c.ts.eof || v.tok == none || v.tok == some "END" || v.tok == some "ENDBLOCK" then
+        .ok ({ c with ts := skipSemi c.ts }, out)
+      else match treesStepY cfg fl c v out with
+        | .error e => .error e
+        | .ok (c5, v5, out5) => treesLoopY cfg fl c5 v5 out5 :=
+  treesLoopY_dead cfg fl c v out
+
+/-- … of `_parse_taxa_block` … -/
+theorem taxaLoop_check_dead (fl : Flags) (c : Core) (hv : Bool) :
+    taxaLoop fl c hv =
+      if c.ts.rest = [] then .error .parse
+      else match taxaStep fl c hv with
+        | .error e => .error e
+        | .ok (c4, have4, tok1) =>
+          if tok1 == some "END" || tok1 == some "ENDBLOCK" then .ok { c4 with ts := skipSemi c4.ts }
+          else taxaLoop fl c4 have4 :=
+  taxaLoop_dead fl c hv
+
+/-- … and the TRANSLATE loop never answers `stuck` (three tokens are read per entry).  What is left with a run-time check:
+    the child loop inside the tree-statement parser. -/
+theorem translateLoop_never_stuck (d : Doc) (ntax : Option Nat) (mp : Mapper) : translateLoop d ntax mp ≠ .error .stuck :=
+  translateLoop_not_stuck _ d ntax mp rfl
 
 /-! ### offsets -/
 
@@ -753,6 +425,481 @@ theorem offsets_enumerate_whole (sch : Schema) (cfg : Cfg) (fl : Flags) (toks : 
   · intro c k b t hb ht
     exact offset_spec sch cfg fl toks tail ns ns' bs c k b t hread hb ht
 
+/-! ### a namespace shared across calls only grows: what was read earlier stays attached to the same taxa -/
+
+/-- every reader route (any tree-list factory, any schema, any settings): the labels in the namespace before the read are still
+    there afterwards, at the same positions — a read only appends taxa.  Proved through the shared tree-statement parser
+    (`Mapper.require` is the only place a tree statement adds a taxon), TAXLABELS, TRANSLATE and every block loop
+    (`Theory/C13NsMono.lean`). -/
+theorem namespace_only_grows {σ} (sch : Schema) (cfg : Cfg) (fl : Flags) (S : Sink σ) (toks : List Tok) (tail : List String)
+    (ns : NSObj) (acc : σ) (r : σ × NSObj) (h : readWith sch cfg fl S toks tail ns acc = .ok r) : ns.labels <+: r.2.labels :=
+  readWith_ns sch cfg fl S toks tail ns acc r h
+
+/-- the same for the iterator route … -/
+theorem namespace_only_grows_yield (sch : Schema) (cfg : Cfg) (fl : Flags) (toks : List Tok) (tail : List String) (ns : NSObj)
+    (r : List Tree × NSObj) (h : yieldFrom sch cfg fl toks tail ns = .ok r) : ns.labels <+: r.2.labels :=
+  yieldFrom_ns sch cfg fl toks tail ns r h
+
+/-- … for `TreeList.get` / `TreeList.read` with any offsets, `Tree.get`, `DataSet.get` / `DataSet.read` … -/
+theorem namespace_only_grows_routes (sch : Schema) (cfg : Cfg) (fl : Flags) (toks : List Tok) (tail : List String) (ns : NSObj) :
+    (∀ l coll tree r, listGet sch cfg fl toks tail ns l coll tree = .ok r → ns.labels <+: r.2.labels) ∧
+    (∀ coll tree label r, treeGet sch cfg fl toks tail ns coll tree label = .ok r → ns.labels <+: r.2.labels) ∧
+    (∀ ex r, datasetRead sch cfg fl toks tail ns ex = .ok r → ns.labels <+: r.2.labels) := by
+  have hb : ∀ bs ns', readBlocks sch cfg fl toks tail ns = .ok (bs, ns') → ns.labels <+: ns'.labels :=
+    fun bs ns' h => readWith_ns sch cfg fl freshSink toks tail ns [] _ h
+  refine ⟨?_, ?_, ?_⟩
+  · intro l coll tree r h
+    unfold listGet at h
+    simp only [] at h
+    split at h
+    · exact readWith_ns sch cfg fl pseudoSink toks tail ns l r h
+    · split at h
+      · cases h
+      · rename_i bs ns' hr
+        have a := hb bs ns' hr
+        split at h
+        · cases h
+        · split at h
+          · cases h
+          · split at h
+            · cases h; exact a
+            · split at h
+              · cases h
+              · cases h; exact a
+  · intro coll tree label r h
+    unfold treeGet at h
+    split at h
+    · cases h
+    · rename_i bs ns' hr
+      have a := hb bs ns' hr
+      split at h
+      · cases h
+      · split at h
+        · cases h
+        · split at h
+          · cases h
+          · split at h
+            · cases h
+            · cases h; exact a
+  · intro ex r h
+    exact readWith_ns sch cfg _ freshSink toks tail ns ex r h
+
+/-- … and for several sources in one call -/
+theorem namespace_only_grows_files (sch : Schema) (cfg : Cfg) (fl : Flags) : ∀ (ds : List Content) (ns : NSObj) (r : List (List Tree) × NSObj),
+    yieldFiles sch cfg fl ds ns = .ok r → ns.labels <+: r.2.labels := by
+  intro ds
+  induction ds with
+  | nil => intro ns r h; simp [yieldFiles] at h; rw [← h]; exact List.prefix_refl _
+  | cons d ds ih =>
+    intro ns r h
+    simp only [yieldFiles] at h
+    cases hy : yieldFrom sch cfg fl d.toks d.tail ns with
+    | error e => simp [hy] at h
+    | ok x =>
+      obtain ⟨ts, ns1⟩ := x
+      simp only [hy] at h
+      cases hr : yieldFiles sch cfg fl ds ns1 with
+      | error e => simp [hr] at h
+      | ok y =>
+        obtain ⟨tss, ns2⟩ := y
+        simp only [hr] at h
+        cases h
+        have a := yieldFrom_ns sch cfg fl d.toks d.tail ns _ hy
+        have b := ih ns1 _ hr
+        exact a.trans b
+
+/-- hence a tree read EARLIER into a shared namespace stays attached to the same taxa whatever is read later through whichever
+    route: the taxon a node refers to is a position in the namespace, and every position that existed keeps its label
+    (the model's rendering of "same `Taxon` object": positions are never reused or reordered) -/
+theorem earlier_taxa_keep_their_place (before after : List String) (h : before <+: after) (i : Nat) (hi : i < before.length) :
+    after[i]? = before[i]? := by
+  obtain ⟨t, rfl⟩ := h
+  rw [List.getElem?_append_left hi]
+
+/-! ### several sources in one call -/
+
+/-- successive reads into a list that already holds `l` = `l` followed by what the same reads deliver into an empty list -/
+theorem readMany_prefix (sch : Schema) (cfg : Cfg) (fl : Flags) : ∀ (ds : List Content) (ns : NSObj) (l : List Tree),
+    readMany sch cfg fl ds ns l = (readMany sch cfg fl ds ns []).map (fun r => (l ++ r.1, r.2)) := by
+  intro ds
+  induction ds with
+  | nil => intro ns l; simp [readMany, Except.map]
+  | cons d ds ih =>
+    intro ns l
+    simp only [readMany]
+    rw [incremental_eq_whole sch cfg fl d.toks d.tail ns l]
+    cases listGet sch cfg fl d.toks d.tail ns [] none none with
+    | error e => simp [Except.map]
+    | ok r =>
+      obtain ⟨l1, ns1⟩ := r
+      simp only [Except.map]
+      rw [ih ns1 (l ++ l1), ih ns1 l1]
+      cases readMany sch cfg fl ds ns1 [] with
+      | error e => simp [Except.map]
+      | ok r2 => simp [Except.map, List.append_assoc]
+
+/-- NEWICK, several sources in one call: `Tree.yield_from_files([a, b, …], taxon_namespace=ns)` delivers, file after file,
+    exactly the trees that `tl = TreeList(taxon_namespace=ns); tl.read(a); tl.read(b); …` collects — same trees, same order,
+    same final namespace (the taxa a file adds are seen by the next one on both routes), same errors; for every list of
+    token streams, option set and starting namespace. -/
+theorem yield_files_eq_successive_reads_newick (cfg : Cfg) (fl : Flags) : ∀ (ds : List Content) (ns : NSObj),
+    (yieldFiles .newick cfg fl ds ns).map (fun r => (r.1.flatten, r.2)) = readMany .newick cfg fl ds ns [] := by
+  intro ds
+  induction ds with
+  | nil => intro ns; simp [yieldFiles, readMany, Except.map]
+  | cons d ds ih =>
+    intro ns
+    simp only [yieldFiles, readMany]
+    rw [yield_eq_list_newick cfg fl d.toks d.tail ns]
+    cases listGet .newick cfg fl d.toks d.tail ns [] none none with
+    | error e => simp [Except.map]
+    | ok r =>
+      obtain ⟨ts, ns1⟩ := r
+      simp only []
+      rw [readMany_prefix .newick cfg fl ds ns1 ts, ← ih ns1]
+      cases yieldFiles .newick cfg fl ds ns1 with
+      | error e => simp [Except.map]
+      | ok r2 => simp [Except.map]
+
+/-- several sources in one call = the first source, then the rest from the namespace the first one left (any schema): nothing
+    but the namespace is carried from one file to the next (REPAIRED behaviour for the NEXUS iterator, see `yieldFiles`) -/
+theorem yield_files_append (sch : Schema) (cfg : Cfg) (fl : Flags) : ∀ (ds es : List Content) (ns : NSObj),
+    yieldFiles sch cfg fl (ds ++ es) ns =
+      match yieldFiles sch cfg fl ds ns with
+      | .error e => .error e
+      | .ok (tss, ns1) =>
+        match yieldFiles sch cfg fl es ns1 with
+        | .error e => .error e
+        | .ok (uss, ns2) => .ok (tss ++ uss, ns2) := by
+  intro ds
+  induction ds with
+  | nil =>
+    intro es ns
+    simp only [List.nil_append, yieldFiles]
+    cases yieldFiles sch cfg fl es ns with
+    | error e => rfl
+    | ok r => simp
+  | cons d ds ih =>
+    intro es ns
+    simp only [List.cons_append, yieldFiles]
+    cases yieldFrom sch cfg fl d.toks d.tail ns with
+    | error e => rfl
+    | ok r =>
+      obtain ⟨ts, ns1⟩ := r
+      simp only []
+      rw [ih es ns1]
+      cases yieldFiles sch cfg fl ds ns1 with
+      | error e => rfl
+      | ok r2 =>
+        obtain ⟨tss, ns2⟩ := r2
+        simp only []
+        cases yieldFiles sch cfg fl es ns2 with
+        | error e => rfl
+        | ok r3 => simp
+
+/-! ### the tree array -/
+
+/-- is a sequence of rooting states acceptable to an array whose rooting state is `a`? (`validate_rooting`, folded) -/
+def Aux.rootOK : Option Bool → List (Option Bool) → Bool
+  | _, [] => true
+  | none, r :: rs => Aux.rootOK r rs
+  | some x, r :: rs => r == some x && Aux.rootOK (some x) rs
+
+/-- `TreeArray.add_trees` records every tree, in order, behind what the array already holds, with the weight rule applied,
+    and refuses nothing but a rooting state that differs from the one the array is committed to -/
+theorem array_add_trees_spec : ∀ (ts : List Tree) (a : Arr),
+    (rootOK a.rooted (ts.map (·.rooted)) = true →
+      ∃ a', a.addTrees ts = .ok a' ∧ a'.useWeights = a.useWeights ∧
+        a'.entries = a.entries ++ ts.map (fun t => { tree := t, weight := arrWeight a.useWeights t })) ∧
+    (rootOK a.rooted (ts.map (·.rooted)) = false → a.addTrees ts = .error .mixed) := by
+  intro ts
+  induction ts with
+  | nil => intro a; simp [Arr.addTrees, rootOK]
+  | cons t ts ih =>
+    intro a
+    cases hr : a.rooted with
+    | none =>
+      have hstep : a.addTree t = .ok { a with rooted := t.rooted, entries := a.entries ++ [{ tree := t, weight := arrWeight a.useWeights t }] } := by
+        simp [Arr.addTree, Arr.validate, hr]
+      obtain ⟨ih1, ih2⟩ := ih { a with rooted := t.rooted, entries := a.entries ++ [{ tree := t, weight := arrWeight a.useWeights t }] }
+      simp only [List.map_cons, rootOK, Arr.addTrees, hstep]
+      constructor
+      · intro h
+        obtain ⟨a', h1, h2, h3⟩ := ih1 h
+        exact ⟨a', h1, h2, by rw [h3]; simp⟩
+      · intro h; exact ih2 h
+    | some x =>
+      by_cases hx : t.rooted = some x
+      · have hstep : a.addTree t = .ok { a with entries := a.entries ++ [{ tree := t, weight := arrWeight a.useWeights t }] } := by
+          simp [Arr.addTree, Arr.validate, hr, hx]
+        obtain ⟨ih1, ih2⟩ := ih { a with entries := a.entries ++ [{ tree := t, weight := arrWeight a.useWeights t }] }
+        simp only [List.map_cons, rootOK, Arr.addTrees, hstep, hx, beq_self_eq_true, Bool.true_and]
+        simp only [hr] at ih1 ih2 ⊢
+        constructor
+        · intro h
+          obtain ⟨a', h1, h2, h3⟩ := ih1 h
+          exact ⟨a', h1, h2, by rw [h3]; simp⟩
+        · intro h; exact ih2 h
+      · have hstep : a.addTree t = .error .mixed := by
+          simp [Arr.addTree, Arr.validate, hr, hx]
+        simp [rootOK, Arr.addTrees, hstep, hx]
+
+/-- `TreeArray.read` of a NEWICK source = `TreeList.get` of the source into the array's namespace, followed by `add_trees` of the
+    trees past the burn-in: the array sees exactly the trees every other route delivers, in order; full equality, errors
+    included (the real code reads through the iterator, `read_from_files([stream])`) -/
+theorem array_read_eq_list_then_add_newick (cfg : Cfg) (fl : Flags) (k : Int) (a : Arr) (d : Content) (ns : NSObj) :
+    arrReadFromFiles .newick cfg fl k a [d] ns =
+      match listGet .newick cfg fl d.toks d.tail ns [] none none with
+      | .error e => .error e
+      | .ok (l, ns') => (a.addTrees (burnIn l k)).map (·, ns') := by
+  simp only [arrReadFromFiles]
+  rw [yield_eq_list_newick cfg fl d.toks d.tail ns]
+  cases listGet .newick cfg fl d.toks d.tail ns [] none none with
+  | error e => rfl
+  | ok r =>
+    obtain ⟨l, ns'⟩ := r
+    simp only []
+    cases a.addTrees (burnIn l k) with
+    | error e => rfl
+    | ok a1 => simp [arrReadFromFiles, Except.map]
+
+/-- the same for a NEXUS source, both sides as the driver runs them (ops `array` and `list`): whenever `TreeList.get` reads the
+    source, `TreeArray.read` adds exactly those trees (past the burn-in) — or refuses them for mixed rooting —, and leaves a
+    namespace with the same labels.  Hypotheses as in `yield_eq_list_nexus`. -/
+theorem array_read_eq_list_then_add_nexus (cfg : Cfg) (fl : Flags) (hx : fl.excludeChars = true) (k : Int) (a : Arr) (d : Content)
+    (ns ns' : NSObj) (trees : List Tree)
+    (hlist : listGet .nexus cfg fl d.toks d.tail ns [] none none = .ok (trees, ns'))
+    (hs : setsClean cfg (att fl) { (coreOf d.toks d.tail ns) with ts := (coreOf d.toks d.tail ns).ts.next } [] = true) :
+    ∃ ns'', ns''.labels = ns'.labels ∧
+      arrReadFromFiles .nexus cfg fl k a [d] ns = (a.addTrees (burnIn trees k)).map (·, ns'') := by
+  obtain ⟨ns'', hy, hl⟩ := yield_eq_list_nexus cfg fl hx d.toks d.tail ns ns' trees hlist hs
+  refine ⟨ns'', hl, ?_⟩
+  simp only [arrReadFromFiles, hy]
+  cases a.addTrees (burnIn trees k) with
+  | error e => rfl
+  | ok a1 => simp [arrReadFromFiles, Except.map]
+
+/-- `TreeArray.read_from_files` over several sources = the sources read one call after the other, each into the array and the
+    namespace the previous call left (any schema, any burn-in) -/
+theorem array_files_append (sch : Schema) (cfg : Cfg) (fl : Flags) (k : Int) : ∀ (ds es : List Content) (a : Arr) (ns : NSObj),
+    arrReadFromFiles sch cfg fl k a (ds ++ es) ns =
+      match arrReadFromFiles sch cfg fl k a ds ns with
+      | .error e => .error e
+      | .ok (a1, ns1) => arrReadFromFiles sch cfg fl k a1 es ns1 := by
+  intro ds
+  induction ds with
+  | nil => intro es a ns; simp [arrReadFromFiles]
+  | cons d ds ih =>
+    intro es a ns
+    simp only [List.cons_append, arrReadFromFiles]
+    cases yieldFrom sch cfg fl d.toks d.tail ns with
+    | error e => rfl
+    | ok r =>
+      obtain ⟨ts, ns1⟩ := r
+      simp only []
+      cases a.addTrees (burnIn ts k) with
+      | error e => rfl
+      | ok a1 => simp only []; exact ih es a1 ns1
+
+/-- whatever is read, the entries an array held before are still there, in place, in front of the new ones -/
+theorem array_keeps_entries (sch : Schema) (cfg : Cfg) (fl : Flags) (k : Int) : ∀ (ds : List Content) (a a' : Arr) (ns ns' : NSObj),
+    arrReadFromFiles sch cfg fl k a ds ns = .ok (a', ns') → ∃ new, a'.entries = a.entries ++ new := by
+  intro ds
+  induction ds with
+  | nil => intro a a' ns ns' h; simp [arrReadFromFiles] at h; exact ⟨[], by rw [← h.1]; simp⟩
+  | cons d ds ih =>
+    intro a a' ns ns' h
+    simp only [arrReadFromFiles] at h
+    cases hy : yieldFrom sch cfg fl d.toks d.tail ns with
+    | error e => simp [hy] at h
+    | ok r =>
+      obtain ⟨ts, ns1⟩ := r
+      simp only [hy] at h
+      cases ha : a.addTrees (burnIn ts k) with
+      | error e => simp [ha] at h
+      | ok a1 =>
+        simp only [ha] at h
+        obtain ⟨new, hn⟩ := ih a1 a' ns1 ns' h
+        have hok : rootOK a.rooted ((burnIn ts k).map (·.rooted)) = true := by
+          cases hb : rootOK a.rooted ((burnIn ts k).map (·.rooted)) with
+          | true => rfl
+          | false => rw [(array_add_trees_spec (burnIn ts k) a).2 hb] at ha; cases ha
+        obtain ⟨a2, h1, _, h3⟩ := (array_add_trees_spec (burnIn ts k) a).1 hok
+        rw [ha] at h1; cases h1
+        exact ⟨(burnIn ts k).map (fun t => { tree := t, weight := arrWeight a.useWeights t }) ++ new, by rw [hn, h3, List.append_assoc]⟩
+
+/-- the burn-in is Python's `l[k:]` for `k ≥ 0` and drops nothing for `k ≤ 0` -/
+theorem burn_in_spec {α} (l : List α) (k : Nat) : burnIn l (k : Int) = l.drop k ∧ burnIn l (-(k : Int)) = l := by
+  constructor
+  · unfold burnIn
+    split
+    · rename_i h
+      have : k = 0 := by omega
+      subst this; simp
+    · simp
+  · unfold burnIn
+    have : (-(k : Int)) ≤ 0 := by omega
+    simp [this]
+
+/-! ### string, stream, path: the dispatch on the source keyword, run on the REGENERATED tables (`Gen/C13Keys.lean`) -/
+
+/-- `X.get(data=t)`, `X.get(file=stream over t)`, `X.get(path=p)` with `p` a file holding `t` (and the legacy spellings
+    `string=`, `stream=`) all hand the same text to the reader, on `get` and on `read` alike: so every route of this model
+    delivers identical results from a string, a stream or a path.  Decided on the keyword list and the two dispatch chains as
+    they stand in the source now: a keyword dropped from `target_type_keywords`, or dispatched to another method, breaks it. -/
+theorem source_dispatch_irrelevant (w : World) (p : String) (c : Content) (hp : w.files.lookup p = some c) :
+    getFrom w [("data", .text c)] true = .ok c ∧ getFrom w [("string", .text c)] true = .ok c ∧
+    getFrom w [("file", .text c)] true = .ok c ∧ getFrom w [("stream", .text c)] true = .ok c ∧
+    getFrom w [("path", .name p)] true = .ok c ∧
+    readFrom w [("data", .text c)] true = .ok c ∧ readFrom w [("string", .text c)] true = .ok c ∧
+    readFrom w [("file", .text c)] true = .ok c ∧ readFrom w [("stream", .text c)] true = .ok c ∧
+    readFrom w [("path", .name p)] true = .ok c := by
+  simp [getFrom, readFrom, extractTarget, openSource, C13Keys.targetKeywords, C13Keys.getDispatch, C13Keys.readDispatch,
+    List.lookup, hp]
+
+/-- exactly one source keyword and a schema, else `TypeError` — whatever else is passed -/
+theorem source_keyword_exactly_one (w : World) (a b : SrcArg) :
+    getFrom w [] true = .error .type ∧ getFrom w [("data", a), ("path", b)] true = .error .type ∧
+    getFrom w [("file", a), ("data", b)] true = .error .type ∧ getFrom w [("data", a)] false = .error .type ∧
+    readFrom w [] true = .error .type ∧ readFrom w [("data", a), ("path", b)] true = .error .type ∧
+    readFrom w [("data", a)] false = .error .type := by
+  simp [getFrom, readFrom, extractTarget, C13Keys.targetKeywords]
+
+/-- a path that cannot be opened is an I/O error, not a parse result -/
+theorem source_missing_path (w : World) (p : String) (hp : w.files.lookup p = none) :
+    getFrom w [("path", .name p)] true = .error .io ∧ readFrom w [("path", .name p)] true = .error .io := by
+  simp [getFrom, readFrom, extractTarget, openSource, C13Keys.targetKeywords, C13Keys.getDispatch, C13Keys.readDispatch,
+    List.lookup, hp]
+
+/-- `get` and `read` dispatch alike, and every accepted keyword is dispatched (no keyword falls through to the `ValueError`) -/
+theorem source_tables_coherent :
+    C13Keys.getDispatch = C13Keys.readDispatch ∧
+    C13Keys.targetKeywords.all (fun kw => (C13Keys.getDispatch.lookup kw).isSome) = true := by
+  constructor
+  · rfl
+  · decide
+
+/-! ### the keyword tables of the NEXUS front ends, REGENERATED from the source (`Gen/C13Keys.lean`) -/
+
+/-- the reader's copy and the iterator's copy of the TREES-block loop test the same statement keywords with the same effect on
+    the loop variable, end on the same tokens, continue a run of TREE statements on the same keyword; their block loops
+    stop the scan at the same word — the very facts `trees_block_reader_eq_yielder` and `reader_eq_yielder` build into the
+    model's two copies.  Decided on the tables read off `nexusreader.py` and `nexusyielder.py` as they stand now. -/
+theorem front_end_copies_agree :
+    C13Keys.readerTreesStmts = C13Keys.yielderTreesStmts ∧ C13Keys.readerTreesEnd = C13Keys.yielderTreesEnd ∧
+    C13Keys.readerTreeRun = C13Keys.yielderTreeRun ∧ C13Keys.readerScanStop = C13Keys.yielderScanStop ∧
+    (∀ p ∈ C13Keys.yielderBlocks, p ∈ C13Keys.readerBlocks) := by
+  refine ⟨rfl, rfl, rfl, rfl, ?_⟩
+  decide
+
+/-- the model's front ends were written against exactly these tables (`treesStepR`/`treesStepY`: LINK, TITLE and TRANSLATE
+    — the latter two clear the loop variable —, TREE, BEGIN; loop ends on END / ENDBLOCK; `seekBegin` stops at BEGIN) -/
+theorem trees_block_tables_as_modelled :
+    C13Keys.readerTreesStmts = [("BEGIN", false), ("LINK", false), ("TITLE", true), ("TRANSLATE", true), ("TREE", false)] ∧
+    C13Keys.readerTreesEnd = ["END", "ENDBLOCK"] ∧ C13Keys.readerTreeRun = ["TREE"] ∧ C13Keys.readerScanStop = ["BEGIN"] :=
+  ⟨rfl, rfl, rfl, rfl⟩
+
+/-- the kind of action the reader's block loop takes on a block name, as `streamStepR` tests it -/
+def Aux.kindR (cur : Option String) : String :=
+  if cur == some "TAXA" then "taxa"
+  else if cur == some "CHARACTERS" || cur == some "DATA" then "chars"
+  else if cur == some "TREES" then "trees"
+  else if isSetsKw cur then "sets"
+  else if cur == some "BEGIN" then "error"
+  else "skip"
+
+/-- … and the iterator's, as `streamStepY` tests it -/
+def Aux.kindY (cur : Option String) : String :=
+  if cur == some "TAXA" then "taxa"
+  else if cur == some "TREES" then "trees"
+  else if cur == some "BEGIN" then "error"
+  else "skip"
+
+/-- `streamStepR` is its dispatch on `kindR` (the mirror above is faithful to the definition the driver runs) … -/
+theorem streamStepR_by_kind {σ} (cfg : Cfg) (fl : Flags) (S : Sink σ) (c : Core) (acc : σ) :
+    streamStepR cfg fl S c acc =
+      (let c2 : Core := { c with ts := afterBegin c.ts }
+       match kindR (afterBegin c.ts).cur with
+       | "taxa" => (parseTaxaBlock fl c2).map (·, acc)
+       | "chars" => if fl.excludeChars then .ok ({ c2 with ts := consumeToEndOfBlock c2.ts c2.ts.cur }, acc)
+                    else .ok ({ c2 with ts := parsedBlockSkeleton c2.ts }, acc)
+       | "trees" => treesBlockR cfg fl S c2 acc
+       | "sets" => if fl.excludeChars then .ok (c2, acc) else .ok ({ c2 with ts := parsedBlockSkeleton c2.ts }, acc)
+       | "error" => .error .parse
+       | _ => .ok ({ c2 with ts := consumeToEndOfBlock c2.ts c2.ts.cur }, acc)) := by
+  unfold streamStepR kindR afterBegin
+  simp only []
+  split
+  · simp
+  · split
+    · simp
+    · split
+      · simp
+      · split
+        · simp
+        · split <;> simp
+
+/-- … and `kindR` is the look-up in the table REGENERATED from `NexusReader._parse_nexus_stream` (any other name: skipped) -/
+theorem reader_block_dispatch_table (t : String) : kindR (some t) = (C13Keys.readerBlocks.lookup t).getD "skip" := by
+  unfold kindR isSetsKw C13Keys.readerBlocks
+  simp only [List.lookup]
+  by_cases h1 : t = "ASSUMPTIONS"
+  · subst h1; simp
+  by_cases h2 : t = "BEGIN"
+  · subst h2; simp
+  by_cases h3 : t = "CHARACTERS"
+  · subst h3; simp
+  by_cases h4 : t = "CODONS"
+  · subst h4; simp
+  by_cases h5 : t = "DATA"
+  · subst h5; simp
+  by_cases h6 : t = "SETS"
+  · subst h6; simp
+  by_cases h7 : t = "TAXA"
+  · subst h7; simp
+  by_cases h8 : t = "TREES"
+  · subst h8; simp
+  have e1 : (t == "ASSUMPTIONS") = false := by simp [h1]
+  have e2 : (t == "BEGIN") = false := by simp [h2]
+  have e3 : (t == "CHARACTERS") = false := by simp [h3]
+  have e4 : (t == "CODONS") = false := by simp [h4]
+  have e5 : (t == "DATA") = false := by simp [h5]
+  have e6 : (t == "SETS") = false := by simp [h6]
+  have e7 : (t == "TAXA") = false := by simp [h7]
+  have e8 : (t == "TREES") = false := by simp [h8]
+  simp [e1, e2, e3, e4, e5, e6, e7, e8]
+
+theorem streamStepY_by_kind (cfg : Cfg) (fl : Flags) (c : Core) (out : List Tree) :
+    streamStepY cfg fl c out =
+      (let c2 : Core := { c with ts := afterBegin c.ts }
+       match kindY (afterBegin c.ts).cur with
+       | "taxa" => (parseTaxaBlock fl c2).map (·, out)
+       | "trees" => treesBlockY cfg fl c2 out
+       | "error" => .error .parse
+       | _ => .ok ({ c2 with ts := consumeToEndOfBlock c2.ts c2.ts.cur }, out)) := by
+  unfold streamStepY kindY afterBegin
+  simp only []
+  split
+  · simp
+  · split
+    · simp
+    · split <;> simp
+
+/-- the iterator's block dispatch is the table REGENERATED from `NexusTreeDataYielder._yield_items_from_stream` -/
+theorem yielder_block_dispatch_table (t : String) : kindY (some t) = (C13Keys.yielderBlocks.lookup t).getD "skip" := by
+  unfold kindY C13Keys.yielderBlocks
+  simp only [List.lookup]
+  by_cases h2 : t = "BEGIN"
+  · subst h2; simp
+  by_cases h7 : t = "TAXA"
+  · subst h7; simp
+  by_cases h8 : t = "TREES"
+  · subst h8; simp
+  have e2 : (t == "BEGIN") = false := by simp [h2]
+  have e7 : (t == "TAXA") = false := by simp [h7]
+  have e8 : (t == "TREES") = false := by simp [h8]
+  simp [e2, e7, e8]
+
 /-! ### non-vacuity: the hypotheses are satisfiable on concrete documents (all arguments explicit: nothing is left
 to unification, each declaration elaborates in well under a second) -/
 namespace Aux
@@ -773,9 +920,9 @@ theorem docA_reads : readBlocks .newick {} {} docA [] {} = .ok ([[treeA]], nsA) 
 /-- the NEXUS document `#NEXUS` (no blocks); a document with a TREES block follows below (`docT`) -/
 def docN : List Tok := [tk "#NEXUS" true]
 
-theorem docN_noSets :
-    noSetsBlocks {} {} pseudoSink { (coreOf docN [] {}) with ts := (coreOf docN [] {}).ts.next } [] = true := by
-  rw [noSetsBlocks.eq_def]
+theorem docN_clean :
+    setsClean {} (att {}) { (coreOf docN [] {}) with ts := (coreOf docN [] {}).ts.next } [] = true := by
+  rw [setsClean.eq_def]
   simp [coreOf, docN, tk, TS.next, TS.step]
 
 /-! keyword comparisons go through `String.toUpper`, which `decide`/`simp` do not evaluate; the kernel does -/
@@ -799,15 +946,60 @@ theorem docT_list : ∃ r, listGet .nexus {} {} docT [] {} [] none none = .ok r 
     processTreeComments, rootingState, parseNode.eq_def, tailLoop.eq_def, suppressTaxon, Mapper.require, lookupCI, lookupEx,
     skipTrailingSemis.eq_def, Except.map, Core.withDoc, up1, up2, up3, up5, up6]
 
+theorem up7 : "SETS".toUpper = "SETS" := by with_unfolding_all rfl
+theorem up8 : "x".toUpper = "X" := by with_unfolding_all rfl
+theorem up9 : "CHARACTERS".toUpper = "CHARACTERS" := by with_unfolding_all rfl
+
 set_option maxRecDepth 8000 in
-/-- and its block loop meets no SETS-class block -/
-theorem docT_noSets :
-    noSetsBlocks {} {} pseudoSink { (coreOf docT [] {}) with ts := (coreOf docT [] {}).ts.next } [] = true := by
-  simp [noSetsBlocks.eq_def, dispatchTok, isSetsKw, coreOf, docT, tk, TS.next, TS.nextU, TS.step, TS.clear, TS.castU, TS.isP,
-    seekBegin.eq_def, streamStepR, treesBlockR, skipSemi.eq_def, treesLoopR.eq_def, treesStepR, getNamespace, newNamespace,
+/-- … and the iterator's run meets no SETS-class block at all -/
+theorem docT_clean :
+    setsClean {} (att {}) { (coreOf docT [] {}) with ts := (coreOf docT [] {}).ts.next } [] = true := by
+  simp [setsClean.eq_def, afterBegin, cleanSkip, cleanTok, consumeToEndOfBlock, consumeLoop.eq_def, isSetsKw, coreOf, docT, tk,
+    TS.next, TS.nextU, TS.step, TS.clear, TS.castU, TS.isP, seekBegin.eq_def, streamStepY, treesBlockY, skipSemi.eq_def,
+    treesLoopY.eq_def, treesStepY, getNamespace, att, treeRunY.eq_def, nexusTreeStmt, mapperOr, Mapper.new, enumFrom,
+    newickStmt, skipLeadingSemis.eq_def, TS.req, processTreeComments, rootingState, parseNode.eq_def, tailLoop.eq_def,
+    suppressTaxon, Mapper.require, lookupCI, lookupEx, skipTrailingSemis.eq_def, Core.withDoc, up2, up3, up4, up5, up6]
+
+/-- the NEXUS document `#NEXUS BEGIN SETS; x; END; BEGIN TREES; TREE t = a; END;`: a SETS block in front of the trees -/
+def docS : List Tok :=
+  [tk "#NEXUS", tk "BEGIN", tk "SETS", tk ";", tk "x", tk ";", tk "END", tk ";",
+   tk "BEGIN", tk "TREES", tk ";", tk "TREE", tk "t", tk "=", tk "a", tk ";", tk "END", tk ";" true]
+
+set_option maxRecDepth 16000 in
+/-- its SETS block is clean: the hypothesis of `reader_eq_yielder` / `yield_eq_list_nexus` holds on a document that the
+    earlier, partial theorems excluded -/
+theorem docS_clean :
+    setsClean {} (att {}) { (coreOf docS [] {}) with ts := (coreOf docS [] {}).ts.next } [] = true := by
+  simp [setsClean.eq_def, afterBegin, cleanSkip, cleanTok, consumeToEndOfBlock, consumeLoop.eq_def, isSetsKw, coreOf, docS, tk,
+    TS.next, TS.nextU, TS.step, TS.clear, TS.castU, TS.isP, seekBegin.eq_def, streamStepY, treesBlockY, skipSemi.eq_def,
+    treesLoopY.eq_def, treesStepY, getNamespace, att, treeRunY.eq_def, nexusTreeStmt, mapperOr, Mapper.new, enumFrom,
+    newickStmt, skipLeadingSemis.eq_def, TS.req, processTreeComments, rootingState, parseNode.eq_def, tailLoop.eq_def,
+    suppressTaxon, Mapper.require, lookupCI, lookupEx, skipTrailingSemis.eq_def, Core.withDoc, up2, up3, up4, up5, up6, up7, up8]
+
+set_option maxRecDepth 16000 in
+/-- the `list` op reads it (the reader's scan for `BEGIN` runs over the SETS block): one tree -/
+theorem docS_list : ∃ r, listGet .nexus {} {} docS [] {} [] none none = .ok r ∧ r.1.length = 1 := by
+  simp [listGet, readWith, nexusRead, coreOf, docS, tk, TS.next, TS.nextU, TS.step, TS.clear, TS.castU, TS.isP, seekBegin.eq_def,
+    streamLoopR.eq_def, streamStepR, isSetsKw, treesBlockR, skipSemi.eq_def, treesLoopR.eq_def, treesStepR, getNamespace, newNamespace,
     treeRunR.eq_def, nexusTreeStmt, pseudoSink, mapperOr, Mapper.new, enumFrom, newickStmt, skipLeadingSemis.eq_def, TS.req,
     processTreeComments, rootingState, parseNode.eq_def, tailLoop.eq_def, suppressTaxon, Mapper.require, lookupCI, lookupEx,
-    skipTrailingSemis.eq_def, Except.map, Core.withDoc, up1, up2, up3, up5, up6]
+    skipTrailingSemis.eq_def, Except.map, Core.withDoc, up1, up2, up3, up4, up5, up6, up7, up8]
+
+/-- the NEXUS document `#NEXUS BEGIN CHARACTERS; x; END; BEGIN TREES; TREE t = a; END;` followed by a line break -/
+def docC : List Tok :=
+  [tk "#NEXUS", tk "BEGIN", tk "CHARACTERS", tk ";", tk "x", tk ";", tk "END", tk ";",
+   tk "BEGIN", tk "TREES", tk ";", tk "TREE", tk "t", tk "=", tk "a", tk ";", tk "END", tk ";"]
+
+set_option maxRecDepth 16000 in
+/-- its character block is clean: the hypothesis of `dataset_blocks_eq` / `dataset_eq_lists` holds -/
+theorem docC_clean :
+    charsClean {} {} freshSink { (coreOf docC [] {}) with ts := (coreOf docC [] {}).ts.next } [] = true := by
+  simp [charsClean.eq_def, afterBegin, cleanSkip, cleanTok, consumeToEndOfBlock, consumeLoop.eq_def, parsedBlockSkeleton, isSetsKw,
+    coreOf, docC, tk, TS.next, TS.nextU, TS.step, TS.clear, TS.castU, TS.isP, seekBegin.eq_def, streamStepR, treesBlockR,
+    skipSemi.eq_def, treesLoopR.eq_def, treesStepR, getNamespace, newNamespace, treeRunR.eq_def, nexusTreeStmt, freshSink,
+    mapperOr, Mapper.new, enumFrom, newickStmt, skipLeadingSemis.eq_def, TS.req, processTreeComments, rootingState,
+    parseNode.eq_def, tailLoop.eq_def, suppressTaxon, Mapper.require, lookupCI, lookupEx, skipTrailingSemis.eq_def,
+    Core.withDoc, up2, up3, up4, up5, up6, up8, up9]
 
 /-! #### the simulation lemmas of `Theory/C13Sim.lean` at the level below the whole-document parser (evaluating a whole
 TAXA + LINK + TRANSLATE document by `simp` does not finish in reasonable time; these instantiate the branches `docT` does not
@@ -873,15 +1065,63 @@ example : ∃ c', taxaTitle (att {}) (setReg { ts := { rest := [tk "TITLE", tk "
 example : ∃ trees ns', listGet .nexus {} {} docT [] {} [] none none = .ok (trees, ns') ∧ trees.length = 1 ∧
     ∃ ns'', yieldFrom .nexus {} {} docT [] {} = .ok (trees, ns'') ∧ ns''.labels = ns'.labels := by
   obtain ⟨r, hr, hlen⟩ := docT_list
-  exact ⟨r.1, r.2, hr, hlen, yield_eq_list_nexus {} {} rfl docT [] {} r.2 r.1 hr docT_noSets⟩
+  exact ⟨r.1, r.2, hr, hlen, yield_eq_list_nexus {} {} rfl docT [] {} r.2 r.1 hr docT_clean⟩
+
+/-- … and on a document WITH a SETS block (outside the earlier partial theorems): same conclusion -/
+example : ∃ trees ns', listGet .nexus {} {} docS [] {} [] none none = .ok (trees, ns') ∧ trees.length = 1 ∧
+    ∃ ns'', yieldFrom .nexus {} {} docS [] {} = .ok (trees, ns'') ∧ ns''.labels = ns'.labels := by
+  obtain ⟨r, hr, hlen⟩ := docS_list
+  exact ⟨r.1, r.2, hr, hlen, yield_eq_list_nexus {} {} rfl docS [] {} r.2 r.1 hr docS_clean⟩
+
+example : nexusYield {} (att {}) (coreOf docS [] {}) [] = nexusRead {} (att {}) pseudoSink (coreOf docS [] {}) [] :=
+  reader_eq_yielder {} (att {}) rfl (coreOf docS [] {}) [] docS_clean
+
+example : yieldFrom .nexus {} {} docS [] {} = listGet .nexus {} (att {}) docS [] {} [] none none :=
+  yield_eq_attached_list_nexus {} {} rfl docS [] {} docS_clean
+
+/-- `TreeArray.read` of the SETS document: adds exactly the tree `TreeList.get` delivers -/
+example : ∃ trees ns', listGet .nexus {} {} docS [] {} [] none none = .ok (trees, ns') ∧ trees.length = 1 ∧
+    ∃ ns'', arrReadFromFiles .nexus {} {} 0 {} [{ toks := docS, tail := [] }] {} = (({} : Arr).addTrees (burnIn trees 0)).map (·, ns'') := by
+  obtain ⟨r, hr, hlen⟩ := docS_list
+  obtain ⟨ns'', _, h⟩ := array_read_eq_list_then_add_nexus {} {} rfl 0 {} { toks := docS, tail := [] } {} r.2 r.1 hr docS_clean
+  exact ⟨r.1, r.2, hr, hlen, ns'', h⟩
+
+/-- the data set route on a document with a CHARACTERS block: the same collections as the tree routes -/
+example : datasetRead .nexus {} {} docC [] {} [] = readBlocks .nexus {} {} docC [] {} :=
+  dataset_blocks_eq .nexus {} {} rfl docC [] {} docC_clean
+
+example : (datasetRead .nexus {} {} docC [] {} []).map (fun r => (r.1.flatten, r.2)) = listGet .nexus {} {} docC [] {} [] none none :=
+  dataset_eq_lists .nexus {} {} rfl docC [] {} docC_clean
 
 example : ∃ r ns'', readWith .nexus {} (att {}) pseudoSink docT [] {} [] = .ok (r, ns'') ∧ r.length = 1 := by
   obtain ⟨x, hx, hlen⟩ := docT_list
   obtain ⟨ns'', h, _⟩ := attached_reader_simulates {} {} pseudoSink docT [] {} x.2 [] x.1 (by simpa [listGet] using hx)
   exact ⟨x.1, ns'', h, hlen⟩
 
-example : nexusYield {} {} (coreOf docT [] {}) [] = nexusRead {} {} pseudoSink (coreOf docT [] {}) [] :=
-  reader_eq_yielder_partial {} {} rfl (coreOf docT [] {}) [] docT_noSets
+/-- two NEWICK sources in one call: `a; a;` — the iterator over both = two successive reads -/
+example : (yieldFiles .newick {} {} [{ toks := docA, tail := [] }, { toks := docA, tail := [] }] {}).map (fun r => (r.1.flatten, r.2))
+    = readMany .newick {} {} [{ toks := docA, tail := [] }, { toks := docA, tail := [] }] {} [] :=
+  yield_files_eq_successive_reads_newick {} {} _ _
+
+/-- a rooted tree after an unrooted one is refused by the array; two unrooted ones are recorded in order -/
+example : ({} : Arr).addTrees [{ treeA with rooted := some false }, { treeA with rooted := some true }] = .error .mixed :=
+  (array_add_trees_spec _ _).2 (by decide)
+example : ∃ a', ({} : Arr).addTrees [{ treeA with rooted := some false }, { treeA with rooted := some false }] = .ok a' ∧
+    a'.entries.length = 2 := by
+  obtain ⟨a', h, _, h3⟩ := (array_add_trees_spec [{ treeA with rooted := some false }, { treeA with rooted := some false }] {}).1 (by decide)
+  exact ⟨a', h, by rw [h3]; rfl⟩
+
+/-- the taxon `a` of the namespace left by a first read of `a;` is still taxon 0 after a second read through the iterator -/
+example : ∀ r, yieldFrom .newick {} {} docA [] nsA = .ok r → r.2.labels[0]? = some "a" := by
+  intro r h
+  have := earlier_taxa_keep_their_place nsA.labels r.2.labels (namespace_only_grows_yield .newick {} {} docA [] nsA r h) 0 (by decide)
+  simpa [nsA] using this
+
+/-- the source dispatch on a world with one file -/
+example : getFrom { files := [("p", { toks := docA, tail := [] })] } [("path", .name "p")] true
+    = getFrom { files := [("p", { toks := docA, tail := [] })] } [("data", .text { toks := docA, tail := [] })] true := by
+  have h := source_dispatch_irrelevant { files := [("p", { toks := docA, tail := [] })] } "p" { toks := docA, tail := [] } (by simp [List.lookup])
+  rw [h.1, h.2.2.2.2.1]
 
 /-- the progress theorem on the statement `a;` -/
 example : ∃ t ts' ns' mp', newickStmt {} { rest := docA, tail := [] } [] (Mapper.new [] false) = .ok (some t, ts', ns', mp') ∧
@@ -905,15 +1145,12 @@ example : listGet .newick {} {} docA [] {} [treeA, treeA] (some ((0 : Nat) : Int
 example : yieldFrom .newick {} {} docA [] {} = listGet .newick {} {} docA [] {} [] none none :=
   yield_eq_list_newick {} {} docA [] {}
 
-example : yieldFrom .nexus {} {} docN [] {} = listGet .nexus {} { ({} : Flags) with attached := true } docN [] {} [] none none :=
-  yield_eq_list_nexus_partial {} {} rfl docN [] {} (by rw [noSetsBlocks.eq_def]; simp [coreOf, docN, tk, TS.next, TS.step])
+example : yieldFrom .nexus {} {} docN [] {} = listGet .nexus {} (att {}) docN [] {} [] none none :=
+  yield_eq_attached_list_nexus {} {} rfl docN [] {} docN_clean
 
 example : ∃ ns'', yieldFrom .nexus {} {} docN [] {} = .ok ([], ns'') ∧ ns''.labels = [] :=
   yield_eq_list_nexus {} {} rfl docN [] {} { labels := [], title := none } []
     (by simp [listGet, readWith, nexusRead, coreOf, docN, tk, TS.next, TS.step, streamLoopR.eq_def, Except.map,
-          show "#NEXUS".toUpper = "#NEXUS" from by with_unfolding_all rfl]) docN_noSets
-
-example : nexusYield {} {} (coreOf docN [] {}) [] = nexusRead {} {} pseudoSink (coreOf docN [] {}) [] :=
-  reader_eq_yielder_partial {} {} rfl (coreOf docN [] {}) [] docN_noSets
+          show "#NEXUS".toUpper = "#NEXUS" from by with_unfolding_all rfl]) docN_clean
 
 end DendroModel.C13
